@@ -179,6 +179,17 @@ UNITS = {
         "src": "src/records/view.rs",
         "anchors": ["pub fn new(data: &'a [u8], schema: &'a Schema) -> Result<Self>", "pub fn get_int8(&self, col_idx: usize) -> Result<i64>"],
     },
+    "leaf_ops": {
+        "src": "src/btree/leaf.rs",
+        "anchors": [
+            "pub fn init(data: &'a mut [u8]) -> Result<Self>",
+            "pub fn insert_cell_at(&mut self, key: &[u8], value: &[u8], insert_pos: usize) -> Result<()>",
+            "pub fn delete_cell(&mut self, index: usize) -> Result<()>",
+            "pub fn update_cell_value_in_place(&mut self, index: usize, new_value: &[u8]) -> Result<()>",
+            "pub fn key_at(&self, index: usize) -> Result<&'a [u8]>",
+            "pub fn value_at(&self, index: usize) -> Result<&'a [u8]>",
+        ],
+    },
 }
 
 PROPS = {
@@ -287,5 +298,15 @@ PROPS = {
         "kani_units": ["simd_scan"],
         "rustflags": "--cfg kahflane_turdb_verif_small_pages",
         "explanation": "bounded",
+    },
+    "C29": {
+        "claimed": False,
+        "level": "other",
+        "level_text": "Bounded stand-in, single-node clauses only: for an ARBITRARY well-formed leaf page (every page byte symbolic) with <= 3 cells and keys/values of 1..3 bytes, compiled with pages scaled to 256 bytes, LeafNodeMut::init / insert_cell_at / delete_cell / update_cell_value_in_place keep the page structurally valid (header counters consistent, slot and cell areas inside the page and disjoint, cells pairwise disjoint, slot prefix == key prefix, keys strictly increasing) and change exactly the addressed entry. Partial: separators bound subtrees, equal leaf depth, leaf chain and no page reachable twice are tree-level clauses over split/propagate and are NOT covered.",
+        "level_note": "Bounded (cells <= 3, key/value <= 3 bytes, PAGE_SIZE = 256 via the cfg hook, fragmentation below the compaction threshold). Interior nodes and all multi-page invariants not covered.",
+        "technique": "Kani per-operation step contracts over an arbitrary well-formed page (bounded), abstract view read through the real accessors, frame by witness index",
+        "kani_units": ["leaf_ops"],
+        "harness_timeout": 1500,
+        "explanation": "Bounded per-operation page invariant on one leaf page (scaled page size, <= 3 cells).",
     },
 }
